@@ -55,8 +55,16 @@ func (c06) Gen(tier string, seed int64, emit0 func([]Ev)) {
 		shapes = append(shapes, shapes...)
 		shapes = append(shapes, shapes...)
 	}
+	// sections at and just below the 1021-byte limit (negative shape = limitPMT kind)
+	shapes = append(shapes, -1, -2, -3)
+	if thorough {
+		shapes = append(shapes, -1, -2, -3, -1, -2, -3)
+	}
 	for si, ns := range shapes {
 		pmt := randPMT(r, ns, si%3 == 0)
+		if ns < 0 {
+			pmt = limitPMT(r, -ns-1, []int{1021, 1021, 1020, 1019, 1000 + r.Intn(22)}[r.Intn(5)])
+		}
 		sec := pmtSection(pmt)
 		for _, ptr := range []int{0, 1, 5, 100, 182} {
 			if !thorough && (si+ptr)%2 == 1 && ptr != 0 {
